@@ -25,6 +25,8 @@ pub fn units(tier: &str, seed: u64) -> Vec<String> {
     for s in catalogue(seed ^ 0xC04, if tier == "thorough" { 12 } else { 3 }, &[]).iter() {
         v.push(unit(&[("shape", s), ("n", "1"), ("fs", "PEN"), ("k", "sym"), ("a", "sym"), ("bud", "90")]));
     }
+    // a carrier that has nothing but a non-EPB use
+    v.push(unit(&[("shape", "U:CAL:ELECTRICIDAD;U:NEPB:GASNATURAL;U:NEPB:ELECTRICIDAD"), ("n", "1"), ("fs", "PEN"), ("k", "sym"), ("a", "sym")]));
     // fractions of a Wh
     v.push(unit(&[("shape", shapes[2]), ("n", "1"), ("fs", "PEN"), ("k", "sym"), ("a", "sym"), ("dom", "0.00001:0.01")]));
     if tier == "thorough" {
